@@ -42,6 +42,38 @@ Theorem C05_canonical_request_injective : forall H, (forall x, wfb (H x)) ->
 Proof. exact canonical_request_injective. Qed.
 Print Assumptions C05_canonical_request_injective.
 
+(* uri_encode is injective, so the canonical request pins the path bytes themselves, not only their encoding *)
+From S3V Require Import proofs.UriEncodeInj.
+Theorem C05_uri_encode_injective : forall es l1 l2, wfb l1 -> wfb l2 -> uri_encode es l1 = uri_encode es l2 -> l1 = l2.
+Proof. exact uri_encode_injective. Qed.
+Print Assumptions C05_uri_encode_injective.
+Theorem C05_canonical_request_pins_path : forall H, (forall x, wfb (H x)) ->
+  forall m1 p1 q1 sh1 pl1 m2 p2 q2 sh2 pl2,
+  no_nl m1 -> no_nl m2 -> wfb p1 -> wfb p2 -> wf_qs q1 -> wf_qs q2 ->
+  Forall (fun p => no_nl (fst p)) sh1 -> Forall (fun p => no_nl (fst p)) sh2 ->
+  canonical_request H m1 p1 q1 sh1 pl1 = canonical_request H m2 p2 q2 sh2 pl2 ->
+  m1 = m2 /\ p1 = p2.
+Proof. exact canonical_request_pins_path. Qed.
+Print Assumptions C05_canonical_request_pins_path.
+
+(* the canonical query string determines the query parameters up to order ('&' and '=' never occur in an encoded name or
+   value, the sort is a permutation, the encoding is injective): nothing can be added to, dropped from or altered in the
+   query without changing the canonical request *)
+From S3V Require Import proofs.QueryPerm.
+From Coq Require Import Permutation.
+Theorem C05_canonical_query_pins_parameters : forall q1 q2, wf_qs q1 -> wf_qs q2 ->
+  canonical_query q1 false = canonical_query q2 false -> Permutation q1 q2.
+Proof. exact canonical_query_pins_parameters. Qed.
+Print Assumptions C05_canonical_query_pins_parameters.
+Theorem C05_canonical_request_pins_target : forall H, (forall x, wfb (H x)) ->
+  forall m1 p1 q1 sh1 pl1 m2 p2 q2 sh2 pl2,
+  no_nl m1 -> no_nl m2 -> wfb p1 -> wfb p2 -> wf_qs q1 -> wf_qs q2 ->
+  Forall (fun p => no_nl (fst p)) sh1 -> Forall (fun p => no_nl (fst p)) sh2 ->
+  canonical_request H m1 p1 q1 sh1 pl1 = canonical_request H m2 p2 q2 sh2 pl2 ->
+  m1 = m2 /\ p1 = p2 /\ Permutation q1 q2.
+Proof. exact canonical_request_pins_target. Qed.
+Print Assumptions C05_canonical_request_pins_target.
+
 (* tamper evidence: two requests accepted under the same signature, key and scope agree in every canonical component, or
    the hash collides on their canonical requests, or the HMAC chain collides on two different strings to sign *)
 Theorem C05_tamper_needs_collision : forall H, (forall x, wfb (H x)) ->
